@@ -204,11 +204,12 @@ def fuzzy_expected(rr, c, run, dt, ffor, fopts):
 
 
 def detect_mode(workdir):
-    """'pinned' if _context_hash is literally the pinned model's hash on a probe history and the D4
-    witness is served stale; else 'fixed'."""
+    """'pinned' if the D4 witness is served stale by the implementation (then _context_hash is compared
+    literally with the pinned model's hash on every step); else 'fixed' (the implementation's hash must
+    distinguish at least what the repaired model distinguishes)."""
     res = run_history(W_D4, 0, workdir)
-    literal = not any("_context_hash" in d["what"] for d in res["dis"])
-    return ("pinned" if literal else "fixed"), res
+    stale = any(p["kind"].startswith("stale") for p in res["prop"])
+    return ("pinned" if stale else "fixed"), res
 
 
 # ------------------------------------------------------------------------------------------
@@ -272,7 +273,7 @@ def shrink(ops, fx, pred):
     cur = list(ops)
     changed = True
     rounds = 0
-    while changed and rounds < 4:
+    while changed and rounds < 2:
         changed = False
         rounds += 1
         i = len(cur) - 1
@@ -297,18 +298,22 @@ def unit_histories(ctx, mode):
     fx = 1 if mode == "fixed" else 0
     # C02 uses no generated source constants: only drift of its own anchors escalates the budget
     n = 4000 if ctx.thorough else (200 if not ctx.drift else 400)
+    if os.environ.get("C02_NHIST"):        # debugging aid (bug-detection trials on a loaded machine)
+        n = int(os.environ["C02_NHIST"])
     fresh = "all"
     seeds = [ctx.rng.getrandbits(48) for _ in range(n)]
     args = [(s, fx, i, fresh) for i, s in enumerate(seeds)]
     nproc = min(14, os.cpu_count() or 4)
-    with multiprocessing.get_context("fork").Pool(nproc) as pool:
-        results = pool.map(_work, args, chunksize=4)
+    # spawn, not fork: the parent has already run strax (threads, locks) — a forked child can inherit a held lock
+    with multiprocessing.get_context("spawn").Pool(nproc) as pool:
+        results = pool.map_async(_work, args, chunksize=4).get(timeout=1500 if not ctx.thorough else 6000)
     dist = {"ops": 0, "d4_histories": 0, "shadow_histories": 0, "fuzzy_histories": 0, "child_plugin": 0,
             "multi_output": 0, "contexts>1": 0, "err_ops": 0, "ambiguous_fuzzy_loads": 0, "fresh_context_checks": 0,
             "stale_explained_by_known_finding": 0, "ndt_%d" % 2: 0}
     nontriv = set()
     explained = {"D4-class-content": 0, "config-key-shadowed-by-data-type": 0}
     reported = 0
+    seen_reports = set()
     for res in results:
         info, st, fl = res["info"], res["stats"], res["flags"]
         dist["ops"] += len(res["ops"])
@@ -358,6 +363,11 @@ def unit_histories(ctx, mode):
                 ops2 = shrink(res["ops"], fx, lambda r: any(p["kind"] == kind for p in r["prop"]))
                 r2 = run_history(ops2, fx, os.path.join(TMP, "rep"))
                 pf2 = ([p for p in r2["prop"] if p["kind"] == kind] or [pf])[0]
+                sig = lib.canon([kind, ops2])
+                if sig in seen_reports:
+                    reported -= 1
+                    continue
+                seen_reports.add(sig)
                 ctx.violation("histories", "property fails on the implementation: " + pf2["what"],
                               {"input": {"history": ops2}, "failure": pf2, "seed": res["seed"]})
     ctx.count("histories", len(results), len(nontriv), dist)
